@@ -36,8 +36,8 @@ func envVars() map[string]any {
 	vars := map[string]any{}
 
 	for _, s := range os.Environ() {
-		kv := strings.SplitN(s, "=", 2)
-		vars[fmt.Sprintf("$env:%s", kv[0])] = kv[1]
+		k, v, _ := strings.Cut(s, "=")
+		vars[fmt.Sprintf("$env:%s", k)] = v
 	}
 
 	return vars
